@@ -102,11 +102,12 @@ def vselA (c : Ctx) : VariantSel → List (String × Bool)
 def vselAl (c : Ctx) (mine : List VariantSel) : List (String × Bool) := mine.flatMap (vselA c)
 
 /-- the member list of the item emitted under the variant's struct name: nothing for a type alias (a single
-    spread, or nothing but one aliased fragment), otherwise the members of all selections on the variant followed
-    by one flattened member per aliased fragment -/
+    spread, or nothing but one aliased fragment — (P41) "nothing but": no field was *pushed* for the struct,
+    `pushedAny`, the generator's `has_fields`; a field pushed and then omitted under `deny` still makes it a struct),
+    otherwise the members of all selections on the variant followed by one flattened member per aliased fragment -/
 def stepHead (c : Ctx) (vt : TypeId) (mine : List VariantSel) : List String :=
   if isSingleSpread mine then []
-  else if (vselFs c vt mine).isEmpty && (vselAl c mine).length == 1 then []
+  else if !pushedAny c.q vt mine && (vselAl c mine).length == 1 then []
   else vselFs c vt mine ++ (vselAl c mine).map (fun p => c.cs.snake p.1)
 
 mutual
@@ -317,8 +318,8 @@ def VariantStep' (c : Ctx) (f : Nat) (pfx : String) (vt : TypeId) (mine : List V
    (mine ≠ [] ∧
     ((∃ fid fr, mine = [.spread fid fr] ∧ thisItems = [aliasItem sname fr.name (fragmentIsRecursive c.q fid)]) ∨
      ((∀ fid fr, mine ≠ [.spread fid fr]) ∧ ∃ r, calcVariantSels c f sname pfx vt mine = .ok r ∧
-        ((∃ a, r.1 = [] ∧ r.2.2 = [a] ∧ thisItems = a :: r.2.1) ∨
-         ((∀ a, r.1 = [] → r.2.2 = [a] → False) ∧ ∃ extra, r.2.2.mapM (aliasMember c) = .ok extra ∧
+        ((∃ a, pushedAny c.q vt mine = false ∧ r.2.2 = [a] ∧ thisItems = a :: r.2.1) ∨
+         ((∀ a, pushedAny c.q vt mine = false → r.2.2 = [a] → False) ∧ ∃ extra, r.2.2.mapM (aliasMember c) = .ok extra ∧
             thisItems = renderType c sname (r.1 ++ extra.flatten) [] ++ r.2.1))))))
 
 theorem calcVariants_ok' {c : Ctx} {f : Nat} {name pfx : String} {vsels : List VariantSel} {vt : TypeId}
@@ -529,8 +530,8 @@ theorem mstep2 (f : Nat) (H2 : MStmt2 c f) (H3 : MStmt3 c f) : MStmt2 c (f + 1) 
         rw [isSingleSpread_false hns]
         simp only [Bool.false_eq_true, if_false]
         rcases hstep with ⟨a, hfs, hal, rfl⟩ | ⟨hnot, extra, hex, rfl⟩
-        · have hF : (vselFs c vt (vsels.filter (fun v => v.typeId == vt))).isEmpty = true := by
-            rw [← r1, hfs]; rfl
+        · have hF : (!pushedAny c.q vt (vsels.filter (fun v => v.typeId == vt))) = true := by
+            rw [hfs]; rfl
           have hL : (vselAl c (vsels.filter (fun v => v.typeId == vt))).length = 1 := by
             have := congrArg List.length r3
             rw [hal] at this
@@ -542,11 +543,12 @@ theorem mstep2 (f : Nat) (H2 : MStmt2 c f) (H3 : MStmt3 c f) : MStmt2 c (f + 1) 
             rfl
           rw [hF, hL, List.map_cons, ha, r2]
           simp
-        · have hcond : ((vselFs c vt (vsels.filter (fun v => v.typeId == vt))).isEmpty &&
+        · have hcond : ((!pushedAny c.q vt (vsels.filter (fun v => v.typeId == vt))) &&
               (vselAl c (vsels.filter (fun v => v.typeId == vt))).length == 1) = false := by
             rw [Bool.and_eq_false_iff]
-            by_cases hF : (vselFs c vt (vsels.filter (fun v => v.typeId == vt))).isEmpty = true
-            · right
+            cases hF : pushedAny c.q vt (vsels.filter (fun v => v.typeId == vt)) with
+            | false =>
+              right
               cases hL : (vselAl c (vsels.filter (fun v => v.typeId == vt))) with
               | nil => rfl
               | cons p ps =>
@@ -555,12 +557,8 @@ theorem mstep2 (f : Nat) (H2 : MStmt2 c f) (H3 : MStmt3 c f) : MStmt2 c (f + 1) 
                 | nil =>
                   exfalso
                   rw [hL] at r3
-                  refine hnot _ ?_ r3
-                  rw [← r1] at hF
-                  cases hr1 : r.1 with
-                  | nil => rfl
-                  | cons _ _ => rw [hr1] at hF; cases hF
-            · left; simpa using hF
+                  exact hnot _ hF r3
+            | true => left; rfl
           rw [hcond]
           simp only [Bool.false_eq_true, if_false]
           rw [List.map_append, members_renderType, List.map_nil, headMembers_nil_right, List.map_append, r1, r2]
